@@ -76,10 +76,11 @@ class Grid(col.MutableSequence):
             if not (isinstance(v1, datetime.datetime) \
                     and isinstance(v2, datetime.datetime)):
                 return False
-            # Same zone: the same tzinfo, or (two objects may stand for one
-            # zone, e.g. pytz.utc and Etc/UTC) the same offset from UTC
-            return (v1.tzinfo == v2.tzinfo \
-                    or v1.utcoffset() == v2.utcoffset()) and \
+            # Same zone: the same offset from UTC.  Two objects may stand for
+            # one zone (pytz.utc and Etc/UTC), and one object for two offsets:
+            # both passes through a repeated hour share tzinfo, date and time
+            # (PEP 495 fold) and are an hour apart.
+            return v1.utcoffset() == v2.utcoffset() and \
                    v1.date() == v2.date() and \
                    Grid._approx_check(v1.time(), v2.time())
         elif isinstance(v1, datetime.time) or isinstance(v2, datetime.time):
